@@ -376,7 +376,7 @@ impl SvgElement {
 
         let mut p = Position::from(self as &SvgElement);
         if self.name == "use" {
-            if let Some(href) = self.get_attr("href") {
+            if let Some(href) = self.get_href() {
                 let elref = href.parse()?;
                 let el = ctx
                     .get_element(&elref)
@@ -683,6 +683,13 @@ impl SvgElement {
         }
     }
 
+    /// The reference of a `use` (or `reuse`) element: `href`, or the `xlink:href`
+    /// spelling of SVG 1.1.
+    fn get_href(&self) -> Option<String> {
+        self.get_attr("href")
+            .or_else(|| self.get_attr("xlink:href"))
+    }
+
     pub fn get_target_element(&self, ctx: &impl ElementMap) -> Result<SvgElement> {
         // TODO: this uses OrderIndex to uniquely identify elements, but that's a bit
         // of a hack. In particular using `id` or `href` is insufficient, as doesn't
@@ -697,7 +704,7 @@ impl SvgElement {
 
         while element.name == "use" || element.name == "reuse" {
             let href = element
-                .get_attr("href")
+                .get_href()
                 .ok_or_else(|| SvgdxError::MissingAttribute("href".to_owned()))?;
             let elref = href.parse()?;
             if let Some(el) = ctx.get_element(&elref) {
